@@ -12,7 +12,8 @@ META = dict(
     level_note='Task bodies and runtime actions are atomic at this level (instruction-level races inside the DTD engine are NOT explored: see NOTES.md, finding F5). '
                'Main legs run with task-object recycling suppressed by the driver and without tasks naming a tile twice, because both trip genuine defects of the tree '
                '(findings C03-stale-last-user-aba, C03-dup-tile-reader-count, reproduced by dedicated legs); schedulers ip/llp (and ll on one thread, documented) '
-               'livelock on the writer-retry path and are reproduced separately (C03-sched-distance-livelock).',
+               'livelock on the writer-retry path and are reproduced separately (C03-sched-distance-livelock). The multi-thread leg (mt) serialises every insertion against task '
+               'prepare/execute/complete on the other streams (tasks still run concurrently with each other under the real scheduler module): the window of NOTES.md/F5 is excluded by construction.',
 )
 RULE = ("states = distinct (canonical program) cases per leg; executions = complete create/insert/flush/wait/free cycles of a real DTD taskpool; "
         "transitions = task executions (inproc legs) or scheduling/gate decisions taken (gate legs); a run is non-trivial when tasks executed out of insertion "
@@ -20,6 +21,7 @@ RULE = ("states = distinct (canonical program) cases per leg; executions = compl
         "execution order, thread placement[, interleaving trace]) signatures")
 ASSUME = ["task bodies touch only the data they declare; the driver waits with parsec_taskpool_wait before reading results and flushes every tile (documented DTD usage)",
           "task-level atomicity: races at instruction granularity inside insert/complete are outside this check",
+          "multi-thread leg: the main thread inserts only while no other stream holds a task (wrapped scheduler module, Dekker handshake); default window only",
           "driver keeps completed task objects out of the class free lists while a taskpool lives (--norecycle): hides finding C03-stale-last-user-aba from the main legs",
           "no task names the same tile twice in the main legs (finding C03-dup-tile-reader-count is reproduced by its own leg)",
           "hash table sizes of the DTD engine reduced to 64 buckets (dtd_task_hash_size, dtd_tile_hash_size) for speed"]
@@ -80,6 +82,8 @@ def check(ctx):
         leg('scheds-1t', ['--leg', 'scheds', '--threads', '1', '--exclude', 'll,llp,ip', '--nt', '1:3', '--maxp', '2', '--nest', '1', '--stride', '36'], 60)
         leg('gate-le2', ['--leg', 'gate', '--nt', '1:2', '--maxp', '2', '--win', '1,1;2,1;0,0', '--jobs', '8'], 60)
         leg('gate-3x1', ['--leg', 'gate', '--nt', '3:3', '--maxp', '1', '--win', '0,0', '--stride', '18', '--jobs', '8'], 60)
+        # 2 free-running streams behind the real scheduler module; insertion serialised against task completion (see level_note)
+        leg('mt-2t', ['--leg', 'mt', '--threads', '2', '--nt', '1:3', '--maxp', '2', '--win', '0,0', '--api', '3', '--spin', '500', '--stride', '12', '--jobs', '6'], 60)
         # the real configuration (task objects recycled): every case in a forked child, failures attributed by differential re-run
         leg('recycle-on', ['--leg', 'gate', '--nt', '1:2', '--maxp', '2', '--win', '1,1;0,0', '--stride', '5', '--jobs', '8', '--isolate', '1', '--norecycle', '0', '--dup', '0'], 80)
         # tasks naming one tile twice (R,R / R,RW / RW,R)
@@ -90,6 +94,8 @@ def check(ctx):
         leg('inproc-4t3', ['--leg', 'inproc', '--threads', '1', '--nt', '4:4', '--tiles', '3', '--maxp', '2', '--win', '1,1;0,0', '--api', '1', '--jobs', '12', '--stride', '7'], 240)
         leg('gate-le2', ['--leg', 'gate', '--nt', '1:2', '--maxp', '2', '--nest', '1', '--jobs', '12'], 200)
         leg('gate-3', ['--leg', 'gate', '--nt', '3:3', '--maxp', '2', '--win', '1,1;0,0', '--jobs', '12'], 420)
+        leg('mt-2t', ['--leg', 'mt', '--threads', '2', '--nt', '1:3', '--maxp', '2', '--win', '0,0', '--api', '3', '--spin', '500', '--stride', '2', '--jobs', '8'], 200)
+        leg('mt-4t-scheds', ['--leg', 'mt', '--threads', '4', '--nt', '1:3', '--maxp', '2', '--win', '0,0', '--api', '1', '--spin', '500', '--stride', '24', '--allscheds', '1', '--exclude', 'll,llp,ip'], 300)
         leg('recycle-on', ['--leg', 'gate', '--nt', '1:2', '--maxp', '2', '--win', '1,1;2,1;0,0', '--jobs', '12', '--isolate', '1', '--norecycle', '0', '--dup', '0'], 240)
         leg('dup', ['--leg', 'gate', '--nt', '1:2', '--maxp', '2', '--win', '0,0;1,1', '--jobs', '12', '--isolate', '1', '--norecycle', '1', '--dup', '2'], 200)
     if not os.environ.get('C03_SKIP_FINDINGS'):
